@@ -220,7 +220,7 @@ def run_point(kind, gk, mi, k, pre):
     return not bad, obs
 
 
-def run_user_generator(k, overwrite=False, pre=False):
+def run_user_generator(k, overwrite=False, pre=False, link=False):
     """a third-party generator using gen_file whose callback opens the target itself and fails after k writes (k = -1: before opening);
     pre: a complete output of an earlier run exists and is regenerated with overwrite"""
     from textx.generators import gen_file
@@ -228,6 +228,10 @@ def run_user_generator(k, overwrite=False, pre=False):
     d = fresh_dir("user")
     out = os.path.join(d, "x.out")
     OLD = "old line 0\nold line 1\nold line 2\nold line 3\n"
+    if link:
+        # the output path is a symbolic link into another directory (dangling unless an earlier output exists)
+        os.makedirs(os.path.join(d, "store"), exist_ok=True)
+        os.symlink(os.path.join(d, "store", "x.out"), out)
     if pre:
         with open(out, "w") as f:
             f.write(OLD)
@@ -255,7 +259,7 @@ def run_user_generator(k, overwrite=False, pre=False):
     gen_file("in.x", out, lambda: (done.append(1), open(out, "w").write("complete"))[1], overwrite=False)
     if k < 3 and not done and not (pre and left == OLD):
         bad.append(("next run skipped the file",))
-    return not bad, {"user_generator_fail_after_writes": k, "overwrite": overwrite, "pre_existing": pre, "left_behind": left, "failures": bad}
+    return not bad, {"user_generator_fail_after_writes": k, "overwrite": overwrite, "pre_existing": pre, "output_is_symlink": link, "left_behind": left, "failures": bad}
 
 
 def work(arg):
@@ -288,6 +292,8 @@ def run(ctx):
             pts.append(("user", k, ow))
     for k in range(-1, 4):
         pts.append(("user", k, True, True))
+        pts.append(("user", k, True, True, True))
+        pts.append(("user", k, False, False, True))
     ctx.pmap(work, [pts[i:i + 6] for i in range(0, len(pts), 6)])
     return {
         "rule": "case = (generator, input, index k of the failing call on the output file among open/write/flush/close, target pre-existing or not); k ranges "
